@@ -249,7 +249,16 @@ const StartEnv = "VERIF_T0"
 // RunShardPool runs `shards` worker processes (VERIF_WORKER=i/shards), at most `concurrency` at a
 // time. Many short-lived shards keep every process small: the real scheduler's caches, informers
 // and event recorders of the thousands of cycles a shard runs are released with the process.
+// PoolDeadline, if positive, bounds the time in which RunShardPool STARTS shards: a shard that would
+// start later is not started at all (a started worker only finds out that the budget is exceeded after
+// it has generated its family's scenarios again, which costs seconds per shard). SkippedShards counts them.
+var (
+	PoolDeadline  time.Duration
+	SkippedShards int
+)
+
 func RunShardPool(shards, concurrency int, extraEnv []string, memLimitKB int, onLine func(worker int, line []byte)) error {
+	poolStart := time.Now()
 	exe, err := os.Executable()
 	if err != nil {
 		return err
@@ -309,6 +318,12 @@ func RunShardPool(shards, concurrency int, extraEnv []string, memLimitKB int, on
 		go func() {
 			defer wg.Done()
 			for i := range next {
+				if PoolDeadline > 0 && time.Since(poolStart) > PoolDeadline {
+					cbMu.Lock()
+					SkippedShards++
+					cbMu.Unlock()
+					continue
+				}
 				runOne(i)
 			}
 		}()
